@@ -238,11 +238,15 @@ def filter_args(func, ignore_lst, args=(), kwargs=dict()):
     arg_sig = inspect.signature(func)
     arg_names = []
     arg_defaults = {}
+    arg_posonlyargs = []
     arg_kwonlyargs = []
     arg_varargs = None
     arg_varkw = None
     for param in arg_sig.parameters.values():
-        if param.kind is param.POSITIONAL_OR_KEYWORD:
+        if param.kind is param.POSITIONAL_ONLY:
+            arg_names.append(param.name)
+            arg_posonlyargs.append(param.name)
+        elif param.kind is param.POSITIONAL_OR_KEYWORD:
             arg_names.append(param.name)
         elif param.kind is param.KEYWORD_ONLY:
             arg_names.append(param.name)
@@ -292,7 +296,7 @@ def filter_args(func, ignore_lst, args=(), kwargs=dict()):
                 )
 
         else:
-            if arg_name in kwargs:
+            if arg_name in kwargs and arg_name not in arg_posonlyargs:
                 arg_dict[arg_name] = kwargs[arg_name]
             else:
                 try:
@@ -310,7 +314,7 @@ def filter_args(func, ignore_lst, args=(), kwargs=dict()):
 
     varkwargs = dict()
     for arg_name, arg_value in sorted(kwargs.items()):
-        if arg_name in arg_dict:
+        if arg_name in arg_dict and arg_name not in arg_posonlyargs:
             arg_dict[arg_name] = arg_value
         elif arg_varkw is not None:
             varkwargs[arg_name] = arg_value
